@@ -96,7 +96,8 @@ theorem run_spec (cfg : Cfg) (react : React) (env : List EnvStep) :
     NoInc (run (initSys cfg react env)).state ∧
     HI (run (initSys cfg react env)).state ∧
     gracefulOK (CauseH react) (run (initSys cfg react env)).state.trace ∧
-    ((∃ proxy, cfg.connect = .ok proxy) → termOK (run (initSys cfg react env)).state.trace) := by
+    ((∃ proxy, cfg.connect = .ok proxy ∨ cfg.connect = .selFail proxy) →
+      termOK (run (initSys cfg react env)).state.trace) := by
   rw [run_eq_runL]
   exact runL_spec (loop env) (loop_spec env) (initSys cfg react env) rfl rfl ⟨rfl, rfl⟩ react
     ⟨rfl, fun h => by rcases h with h | h <;> cases h⟩
@@ -134,13 +135,19 @@ theorem runAll_accepted (cfg : Cfg) (react : React) (env : List EnvStep) :
   | err x s => rw [hr] at h; obtain ⟨ph, hp, _⟩ := h; exact ⟨ph, hp⟩
 
 
-theorem termOK_runAll (cfg : Cfg) (react : React) (env : List EnvStep) (proxy : Bool)
-    (hc : cfg.connect = .ok proxy) : termOK (runAll cfg react env).trace := by
+/-- whenever `_connect` returned a socket (also when the selector's constructor then raised), every
+    terminal event of the connection is preceded by `sockClose` -/
+theorem termOK_runAll' (cfg : Cfg) (react : React) (env : List EnvStep) (proxy : Bool)
+    (hc : cfg.connect = .ok proxy ∨ cfg.connect = .selFail proxy) : termOK (runAll cfg react env).trace := by
   have h := (run_spec cfg react env).2.2.2.2 ⟨proxy, hc⟩
   rcases runAll_cases cfg react env with ⟨s, hr, e⟩ | ⟨s, hr, _, k⟩ | ⟨s, hr, e⟩
   · rw [hr] at h; rw [e]; exact h
   · rw [hr] at h; exact k.termOK h
   · rw [hr] at h; rw [e]; exact ⟨fun ht => (by cases ht), h⟩
+
+theorem termOK_runAll (cfg : Cfg) (react : React) (env : List EnvStep) (proxy : Bool)
+    (hc : cfg.connect = .ok proxy) : termOK (runAll cfg react env).trace :=
+  termOK_runAll' cfg react env proxy (Or.inl hc)
 
 
 theorem gracefulOK_runAll (cfg : Cfg) (react : React) (env : List EnvStep) :
